@@ -57,6 +57,10 @@ for pid in sorted(props):
         if pid == "C05":
             dirb += (" Thorough tier: Apalache discharges the inductive invariant of UnmanagedCounting.tla and TLC checks the refinement; "
                      "liveness of waiting get() / add() under fairness (quick and thorough).")
+        if pid == "C17":
+            dirb += (" A sample of the recorded paths ends with a concurrent phase (8 worker threads recycling at once on a pool and "
+                     "scripted server of their own), judged by the same monitor: the manager crate has no schedule points, so races "
+                     "inside it are explored by running them, not scheduled.")
         if pid == "C09":
             dirb += " One configuration drives the deadpool-postgres manager (PgManager.tla), whose statement-cache registry relies on detach."
         checks.append({
